@@ -126,7 +126,7 @@ def get_root_include_path(filename):
         full_candidate_path = os.path.abspath(
             os.path.normpath(
                 os.path.expanduser(candidate)))
-        if full_file_path.startswith(full_candidate_path):
+        if full_file_path.startswith(os.path.join(full_candidate_path, '')):
             root_path = full_candidate_path
     if root_path is None:
         root_path = os.path.dirname(full_file_path)
@@ -186,7 +186,9 @@ def process_includes(lualines, filename=None):
             os.path.normpath(
                 os.path.join(
                     os.path.dirname(filename), inc_path + inc_extension)))
-        if not inc_full_path.startswith(root_path):
+        # (Compare with the trailing separator, or a sibling such as
+        # "carts2/x.p8" would pass for a root of "carts".)
+        if not inc_full_path.startswith(os.path.join(root_path, '')):
             raise P8IncludeOutsideOfAllowedDirectory()
         if not os.path.isfile(inc_full_path):
             raise P8IncludeNotFound()
